@@ -79,8 +79,11 @@ class Sidecars:
         self.assumed: Dict[str, ContractAst] = {}
         self.loops: Dict[Tuple[str, int], LoopAst] = {}
         self.attr_sorts: Dict[str, str] = {}
+        self.write_once = set()       # attributes assigned only by the constructor of their own object (obligation write-once@<attr>)
         self.specs: Dict[str, ast.FunctionDef] = {}
         self.specs_rec: Dict[str, ast.FunctionDef] = {}
+        self.elem_preds: Dict[str, ast.FunctionDef] = {}
+        self.lemmas: Dict[str, list] = {}          # function key -> [(after-text, LoopAst-like clauses holder)]
         self.sources: Dict[str, str] = {}
         for fn in sorted(os.listdir(self.dir)):
             if fn.endswith(".py") and not fn.startswith("_"):
@@ -107,6 +110,21 @@ class Sidecars:
                     self.specs[node.name] = node
                 if any(isinstance(d, ast.Name) and d.id == "specrec" for d in node.decorator_list):
                     self.specs_rec[node.name] = node
+                if any(isinstance(d, ast.Name) and d.id == "elempred" for d in node.decorator_list):
+                    self.elem_preds[node.name] = node
+                for d in node.decorator_list:
+                    if isinstance(d, ast.Call) and isinstance(d.func, ast.Name) and d.func.id == "lemma":
+                        key = self._const(d.args[0])
+                        after = None
+                        forget = []
+                        for kw in d.keywords:
+                            if kw.arg == "after":
+                                after = ast.literal_eval(kw.value)
+                            elif kw.arg == "forget":
+                                forget = ast.literal_eval(kw.value)
+                        holder = LoopAst(key, -1, [a.arg for a in node.args.args], _clauses(node), path)
+                        holder.forget = forget
+                        self.lemmas.setdefault(key, []).append((after, holder, node.name))
                 for d in node.decorator_list:
                     if isinstance(d, ast.Call) and isinstance(d.func, ast.Name) and d.func.id == "loop":
                         key = self._const(d.args[0])
@@ -119,6 +137,9 @@ class Sidecars:
                         self.attr_sorts.update(ast.literal_eval(kw.value))
                     else:
                         self.attr_sorts[kw.arg] = ast.literal_eval(kw.value)
+            elif isinstance(node, ast.Expr) and isinstance(node.value, ast.Call) and isinstance(node.value.func, ast.Name) \
+                    and node.value.func.id == "write_once":
+                self.write_once |= {ast.literal_eval(a) for a in node.value.args}
 
     def _const(self, e):
         if isinstance(e, ast.Constant):
